@@ -7,6 +7,8 @@ CONSTANTS
   MaxGetter = 4
   MaxPath = 3
   MaxHist = 3
+  MaxSeq = 3
+INVARIANT GetterHistory
 INVARIANT HistoryIndependent
 INVARIANT Precedence
 INVARIANT FilesInOrder
